@@ -7,6 +7,7 @@
   A function value is one matrix entry of the Hamiltonian; `K` is any field of characteristic 0 (ℝ, ℂ, ℚ).
 -/
 import WB.Lemmas.C31Poly
+import WB.Lemmas.C31Find
 import Mathlib.Tactic.FieldSimp
 
 namespace WB.C31
@@ -103,6 +104,83 @@ theorem fd_third_exact_cubic (bs : List (BPoint K)) (hs : GoodStencil bs) (A C :
     (c0 : K) (g : Fin 3 → K) (h : Fin 3 → Fin 3 → K) (t : Fin 3 → Fin 3 → Fin 3 → K) (k : V3 K) (e1 e2 e3 : Fin 3) :
     der3 bs (fun x => cubic c0 g h t (toCart A x)) k e1 e2 e3 = d3C C t e1 e2 e3 :=
   fd_third_aux bs hs A C hAC c0 g h t k e1 e2 e3
+
+
+/-! ## T4  `find_shells` / `check_B1`: what the derivative theorems need holds whenever the function returns
+
+  `par` (= `check_parallel`) and `kernel` (= the SVD solve of `check_B1`, `none` when a singular value is below 1e-7) are
+  ARBITRARY functions; `nrm` (= `np.linalg.norm`) is any function with `nrm (−v) = nrm v`; `th` = 1e-8 (find_degen),
+  `tol` = 1e-5, `eps` = 1e-8, `n` = isearch, `nshells` = 50.  `findShells … = none` models the `TypeError` of the code
+  when the loop ends with `weights = None` (the known finding). -/
+
+/-- T4a.  The main expansion without the completeness relation: for a stencil closed under negation,
+    `Σ_b w_b f(k+b) b_e = Σ_a A1_a M2_ae + Σ A3_acd M4_acde`. -/
+theorem fd_odd_expansion_no_b1 {K : Type} [Field K] [CharZero K] (bs : List (BPoint K))
+    (hneg : (bs.map BPoint.neg).Perm bs) (f : V3 K → K) (k : V3 K)
+    (Ev : V3 K → K) (hEv : ∀ b, Ev (fun a => -b a) = Ev b)
+    (A1 : Fin 3 → K) (A3 : Fin 3 → Fin 3 → Fin 3 → K)
+    (hf : ∀ p ∈ bs, f (vadd k p.bred) = Ev p.bcart + sum3 (fun a => A1 a * p.bcart a)
+        + sum3 (fun a => sum3 (fun c => sum3 (fun d => A3 a c d * p.bcart a * p.bcart c * p.bcart d))))
+    (e : Fin 3) :
+    deriv3D f k e bs = sum3 (fun a => A1 a * mom2 bs a e)
+      + sum3 (fun a => sum3 (fun c => sum3 (fun d => A3 a c d * mom4 bs a c d e))) :=
+  fd_odd_expansion_gen_aux bs hneg f k Ev hEv A1 A3 hf e
+
+/-- T4b (soundness of `find_shells`).  Whenever it returns a stencil `st`:
+    (1) `st` is the per-vector expansion (with the `abs(w) > eps` filter) of shells `sel` with the kernel's weights `ws`,
+        and these passed the guard  ‖Σ_s w_s M_s − 1‖_F ≤ tol  that `check_B1` evaluates before returning;
+    (2) the stencil handed to `Derivative3D` is closed under b → −b with equal weights (a permutation of itself);
+    (3) its second moment satisfies the completeness relation up to the tolerance, entrywise:
+        (Σ_b w_b b_a b_c + [shells dropped by the filter] − δ_ac)² ≤ tol². -/
+theorem findShells_sound (par : List Nat → Nat → Bool) (kernel : List Nat → Option (List Rat)) (nrm : V3 Rat → Rat)
+    (hnrm : ∀ v : V3 Rat, nrm (fun c => -v c) = nrm v)
+    (basis : Fin 3 → Fin 3 → Rat) (n : Nat) (th tol eps : Rat) (hth : 0 ≤ th) (nshells : Nat) (dk : Rat)
+    (st : List (Rat × I3)) (h : findShells par kernel nrm basis n th tol eps nshells = some st) :
+    ∃ (sel : List Nat) (ws : List Rat),
+      kernel sel = some ws ∧ st = expandF (tableFn (shellTableList nrm basis n th nshells)) eps sel ws ∧
+      resid2 (fun k => shellMat basis (tableFn (shellTableList nrm basis n th nshells) k)) sel ws ≤ tol * tol ∧
+      ((toStencil basis dk st).map BPoint.neg).Perm (toStencil basis dk st) ∧
+      ∀ a c, (mom2 (toStencil basis dk st) a c
+                + droppedEye (fun k => shellMat basis (tableFn (shellTableList nrm basis n th nshells) k)) eps sel ws a c
+                - delta3 a c)
+             * (mom2 (toStencil basis dk st) a c
+                + droppedEye (fun k => shellMat basis (tableFn (shellTableList nrm basis n th nshells) k)) eps sel ws a c
+                - delta3 a c)
+             ≤ tol * tol :=
+  findShells_sound_aux par kernel nrm hnrm basis n th tol eps hth nshells dk st h
+
+/-- T4c.  The table of shells used by the loop is the list of runs of the sorted lengths (`find_degen`), and every
+    shell is closed under negation. -/
+theorem shells_closed_under_negation (nrm : V3 Rat → Rat) (hnrm : ∀ v : V3 Rat, nrm (fun c => -v c) = nrm v)
+    (basis : Fin 3 → Fin 3 → Rat) (n : Nat) (th : Rat) (hth : 0 ≤ th) (ns k : Nat) :
+    tableFn (shellTableList nrm basis n th ns) k = (if k ≤ ns then shellVecs nrm basis n th k else []) ∧
+    ((tableFn (shellTableList nrm basis n th ns) k).map negI).Perm (tableFn (shellTableList nrm basis n th ns) k) :=
+  ⟨tableFn_shellTableList nrm basis n th ns k, tableFn_neg_perm nrm hnrm basis n th hth ns k⟩
+
+/-- T4d.  Consequence for the numerical derivative with the stencil `find_shells` returned (Rat): the deviation from
+    `A1_e + Σ A3 M4` is exactly `Σ_a A1_a (M2_ae − δ_ae)`, and `M2 − δ` is bounded by T4b(3). -/
+theorem fd_with_returned_stencil (bs : List (BPoint Rat)) (hneg : (bs.map BPoint.neg).Perm bs) (f : V3 Rat → Rat)
+    (k : V3 Rat) (Ev : V3 Rat → Rat) (hEv : ∀ b, Ev (fun a => -b a) = Ev b)
+    (A1 : Fin 3 → Rat) (A3 : Fin 3 → Fin 3 → Fin 3 → Rat)
+    (hf : ∀ p ∈ bs, f (vadd k p.bred) = Ev p.bcart + sum3 (fun a => A1 a * p.bcart a)
+        + sum3 (fun a => sum3 (fun c => sum3 (fun d => A3 a c d * p.bcart a * p.bcart c * p.bcart d))))
+    (e : Fin 3) :
+    deriv3D f k e bs - (A1 e + sum3 (fun a => sum3 (fun c => sum3 (fun d => A3 a c d * mom4 bs a c d e))))
+      = sum3 (fun a => A1 a * (mom2 bs a e - delta3 a e)) := by
+  rw [fd_odd_expansion_gen_aux bs hneg f k Ev hEv A1 A3 hf e]
+  fin_cases e <;> simp [sum3, delta3] <;> ring
+
+/-- non-vacuity of T4b: the model of `find_shells` does return for suitable kernels (here: any lattice, a kernel that
+    answers `[0]` and a generous tolerance, so that the guard 3 ≤ tol² holds whatever the shells are); the
+    correspondence run exercises the realistic instances (exact weights such as 128 for the cubic basis 1/16) -/
+example (nrm : V3 Rat → Rat) (basis : Fin 3 → Fin 3 → Rat) :
+    (findShells (fun _ _ => true) (fun _ => some [0]) nrm basis 3 0 10 0 1).isSome = true := by
+  have hc : checkB1 (fun _ => some [0])
+      (fun k => shellMat basis (tableFn (shellTableList nrm basis 3 0 1) k)) 10 [1]
+      = (true, true, some [0]) := by
+    simp [checkB1, resid2, checkEye, delta3, fin3]
+    norm_num
+  simp [findShells, shellLoop, hc]
 
 /-! ## non-vacuity: the simple-cubic stencil (what `find_shells` returns for `kmax`-type lattices) -/
 
